@@ -336,22 +336,27 @@ end norm
 def ordNum {N : Type} [NumOps N] (x y : N) : Ordering :=
   if lt x y then .lt else if eq x y then .eq else .gt
 
-/-- operand pairs on which excelize's `< <= > >=` follow Excel's order numbers < text < booleans:
-number/blank pairs (no NaN), text pairs whose ordinal order is their case-insensitive order
-(otherwise `finding_text_case`), number or blank against non-empty text, boolean pairs.
-Excluded: a boolean against anything else (`finding_bool_gt_number`), the empty text literal
-(`finding_empty_text`), error operands. -/
+/-- operand pairs on which `< <= > >=` (`calcCompare`) follow Excel's order numbers < text <
+booleans: every pair of numbers (no NaN), blanks, non-empty text and booleans, except a blank
+against FALSE (the blank is turned into the number 0 first: the rest of `cmp:bool-as-number`)
+and the empty text literal (`finding_empty_text`). -/
 def CompatOrd {N : Type} [NumOps N] : Spec.Val N → Spec.Val N → Prop
   | .num x, .num y => isNaN x = false ∧ isNaN y = false
   | .num x, .blank => isNaN x = false
   | .blank, .num y => isNaN y = false
   | .blank, .blank => True
-  | .text s, .text t => s ≠ [] ∧ t ≠ [] ∧ cmpStr s t = cmpStr (upper s) (upper t)
+  | .text s, .text t => s ≠ [] ∧ t ≠ []
   | .num _, .text t => t ≠ []
   | .text s, .num _ => s ≠ []
   | .blank, .text t => t ≠ []
   | .text s, .blank => s ≠ []
   | .bool _, .bool _ => True
+  | .bool _, .num _ => True
+  | .num _, .bool _ => True
+  | .bool _, .text t => t ≠ []
+  | .text s, .bool _ => s ≠ []
+  | .bool p, .blank => p = true
+  | .blank, .bool q => q = true
   | _, _ => False
 
 theorem ordNum_b2n {N : Type} [NumOps N] (C : LawfulCmp N) (p q : Bool) :
@@ -365,64 +370,78 @@ theorem agree_bool {N : Type} [NumOps N] (v w : Bool) (h : v = w) :
     Agree (.ok (Impl.mkBool v : Impl.Arg N)) (.bool w) := by
   subst h; simp [Agree, Impl.mkBool]
 
-/-- the four ordering operators share one proof, parametrised by what they do on two numbers,
-two strings, number/string and string/number -/
-theorem ord_agree_generic {N : Type} [NumOps N] (L : Lawful N) (C : LawfulCmp N)
-    (nn : N → N → Bool) (ss : Ordering → Bool) (ns sn : Bool) (f : Ordering → Bool)
-    (hnn : ∀ x y : N, isNaN x = false → isNaN y = false → nn x y = f (ordNum x y))
-    (hss : ∀ o, ss o = f o) (hns : ns = f .lt) (hsn : sn = f .gt)
+theorem numord_core {N : Type} [NumOps N] (L : Lawful N) (C : LawfulCmp N) (x y : N)
+    (hx : isNaN x = false) (hy : isNaN y = false) :
+    (if lt x y then Ordering.lt else if lt y x then .gt else .eq) = ordNum x y := by
+  unfold ordNum
+  by_cases h1 : lt x y = true
+  · simp [h1]
+  · have := C.gt_iff x y hx hy
+    cases h2 : eq x y <;> simp_all
+
+/-- `calcCompare` on compatible operands is Excel's three-way comparison -/
+theorem ord_core {N : Type} [NumOps N] (L : Lawful N) (C : LawfulCmp N)
     (a b : Spec.Val N) (h : CompatOrd a b) :
-    Agree (Impl.ordRes nn ss ns sn (Impl.blank0 (toImpl a)) (Impl.blank0 (toImpl b)))
-      (Spec.compare f a b) := by
+    Impl.calcCompare (Impl.blank0 (toImpl a)) (Impl.blank0 (toImpl b)) = some (Spec.cmp a b) := by
   have hz := L.nan_zero
   cases a <;> cases b <;> simp only [CompatOrd] at h
   case num.num x y =>
     rw [norm_num L, norm_num L]
-    exact agree_bool _ _ (hnn x y h.1 h.2)
-  case num.text x t =>
-    rw [norm_num L, norm_text t h]
-    exact agree_bool _ _ hns
+    simp only [Impl.calcCompare, if_true]
+    exact congrArg some (numord_core L C x y h.1 h.2)
   case num.blank x =>
     rw [norm_num L, norm_blank L]
-    exact agree_bool _ _ (hnn x zero h hz)
-  case text.num s y =>
-    rw [norm_text s h, norm_num L]
-    exact agree_bool _ _ hsn
-  case text.text s t =>
-    rw [norm_text s h.1, norm_text t h.2.1]
-    exact agree_bool _ _ (by rw [hss, h.2.2]; rfl)
-  case text.blank s =>
-    rw [norm_text s h, norm_blank L]
-    refine agree_bool _ _ ?_
-    show sn = f (cmpStr (upper s) (upper []))
-    rw [hsn]
-    have : cmpStr (upper s) (upper []) = .gt := Impl.cmpStr_nil_right _ (Impl.upper_ne_nil s h)
-    rw [this]
-  case bool.bool p q =>
-    rw [norm_bool C, norm_bool C]
-    refine agree_bool _ _ ?_
-    have h1 : isNaN (if p then one else zero : N) = false := by cases p <;> simp [L.nan_zero, L.nan_one]
-    have h2 : isNaN (if q then one else zero : N) = false := by cases q <;> simp [L.nan_zero, L.nan_one]
-    rw [hnn _ _ h1 h2, ordNum_b2n C]
-    rfl
+    simp only [Impl.calcCompare, if_true]
+    exact congrArg some (numord_core L C x zero h hz)
   case blank.num y =>
     rw [norm_blank L, norm_num L]
-    exact agree_bool _ _ (hnn zero y hz h)
-  case blank.text t =>
-    rw [norm_blank L, norm_text t h]
-    refine agree_bool _ _ ?_
-    show ns = f (cmpStr (upper []) (upper t))
-    rw [hns]
-    have : cmpStr (upper []) (upper t) = .lt := Impl.cmpStr_nil_left _ (Impl.upper_ne_nil t h)
-    rw [this]
+    simp only [Impl.calcCompare, if_true]
+    exact congrArg some (numord_core L C zero y hz h)
   case blank.blank =>
     rw [norm_blank L]
-    refine agree_bool _ _ ?_
-    rw [hnn zero zero hz hz]
     obtain ⟨_, _, a3, _⟩ := C.lt01
-    obtain ⟨b1, _, _, _⟩ := C.eq01
-    show f (ordNum zero zero) = f .eq
-    simp [ordNum, a3, b1]
+    simp [Impl.calcCompare, Spec.cmp, a3]
+  case text.text s t =>
+    rw [norm_text s h.1, norm_text t h.2]
+    rfl
+  case num.text x t =>
+    rw [norm_num L, norm_text t h]
+    rfl
+  case text.num s y =>
+    rw [norm_text s h, norm_num L]
+    rfl
+  case blank.text t =>
+    rw [norm_blank L, norm_text t h]
+    have : cmpStr (upper []) (upper t) = .lt := Impl.cmpStr_nil_left _ (Impl.upper_ne_nil t h)
+    simp [Impl.calcCompare, Spec.cmp, this]
+  case text.blank s =>
+    rw [norm_text s h, norm_blank L]
+    have : cmpStr (upper s) (upper []) = .gt := Impl.cmpStr_nil_right _ (Impl.upper_ne_nil s h)
+    simp [Impl.calcCompare, Spec.cmp, this]
+  case bool.bool p q =>
+    rw [norm_bool C, norm_bool C]
+    obtain ⟨a1, a2, a3, a4⟩ := C.lt01
+    cases p <;> cases q <;> simp [Impl.calcCompare, Spec.cmp, a1, a2, a3, a4]
+  case bool.num p y =>
+    rw [norm_bool C, norm_num L]
+    simp [Impl.calcCompare, Spec.cmp]
+  case num.bool x q =>
+    rw [norm_num L, norm_bool C]
+    simp [Impl.calcCompare, Spec.cmp]
+  case bool.text p t =>
+    rw [norm_bool C, norm_text t h]
+    simp [Impl.calcCompare, Spec.cmp]
+  case text.bool s q =>
+    rw [norm_text s h, norm_bool C]
+    simp [Impl.calcCompare, Spec.cmp]
+  case bool.blank p =>
+    subst h
+    rw [norm_bool C, norm_blank L]
+    simp [Impl.calcCompare, Spec.cmp]
+  case blank.bool q =>
+    subst h
+    rw [norm_blank L, norm_bool C]
+    simp [Impl.calcCompare, Spec.cmp]
 
 theorem compatOrd_notErr {N : Type} [NumOps N] (a b : Spec.Val N) (h : CompatOrd a b) :
     NotErr a ∧ NotErr b := by
@@ -437,28 +456,27 @@ theorem ord_agree {N : Type} [NumOps N] (L : Lawful N) (C : LawfulCmp N) (op : O
   have hne := compatOrd_notErr a b h
   have na := blank0_toImpl_ne_err L a hne.1
   have nb := blank0_toImpl_ne_err L b hne.2
+  have hc : ∀ f, Spec.compare f a b = .bool (f (Spec.cmp a b)) := by
+    intro f
+    cases a <;> cases b <;> simp_all [Spec.compare, NotErr]
+  have core := ord_core L C a b h
   rcases hop with rfl | rfl | rfl | rfl
   · rw [Impl.applyBin_lt_shape _ _ na nb]
-    refine ord_agree_generic L C _ _ _ _ (· == .lt) ?_ (fun _ => rfl) rfl rfl a b h
-    intro x y _ _
-    cases h1 : lt x y <;> cases h2 : eq x y <;> simp [ordNum, h1, h2]
+    show Agree _ (Spec.compare (· == .lt) a b)
+    rw [hc, Impl.ordRes, core]
+    exact agree_bool _ _ rfl
   · rw [Impl.applyBin_le_shape _ _ na nb]
-    refine ord_agree_generic L C _ _ _ _ (· != .gt) ?_ (fun _ => rfl) rfl rfl a b h
-    intro x y hx hy
-    rw [C.le_iff x y hx hy]
-    cases h1 : lt x y <;> cases h2 : eq x y <;> simp [ordNum, h1, h2]
+    show Agree _ (Spec.compare (· != .gt) a b)
+    rw [hc, Impl.ordRes, core]
+    exact agree_bool _ _ rfl
   · rw [Impl.applyBin_gt_shape _ _ na nb]
-    refine ord_agree_generic L C _ _ _ _ (· == .gt) ?_ (fun _ => rfl) rfl rfl a b h
-    intro x y hx hy
-    show lt y x = _
-    rw [C.gt_iff x y hx hy]
-    cases h1 : lt x y <;> cases h2 : eq x y <;> simp [ordNum, h1, h2]
+    show Agree _ (Spec.compare (· == .gt) a b)
+    rw [hc, Impl.ordRes, core]
+    exact agree_bool _ _ rfl
   · rw [Impl.applyBin_ge_shape _ _ na nb]
-    refine ord_agree_generic L C _ _ _ _ (· != .lt) ?_ (fun _ => rfl) rfl rfl a b h
-    intro x y hx hy
-    show le y x = _
-    rw [C.ge_iff x y hx hy]
-    cases h1 : lt x y <;> cases h2 : eq x y <;> simp [ordNum, h1, h2]
+    show Agree _ (Spec.compare (· != .lt) a b)
+    rw [hc, Impl.ordRes, core]
+    exact agree_bool _ _ rfl
 
 /-- operand pairs on which `=` / `<>` (typed comparison, `calcEqual`) is Excel's equality: every
 pair of numbers, blanks, non-empty text and booleans, except blank against FALSE (a blank is
@@ -1566,15 +1584,20 @@ theorem fixed_eq_typed :
     Impl.evalTokens noEnv (render 1 (.bin .eq (.text [97]) (.text [65]))) = .ok (.num 1 true) ∧
     Spec.eval noEnvS (.bin .eq (.text [97]) (.text [65])) = .bool true := by decide +kernel
 
-/-- `="a"<"B"` → FALSE; Excel orders text case-insensitively: TRUE -/
-theorem finding_text_case :
-    Impl.evalTokens noEnv (render 1 (.bin .lt (.text [97]) (.text [66]))) = .ok (.num 0 true) ∧
-    Spec.eval noEnvS (.bin .lt (.text [97]) (.text [66])) = .bool true := by decide +kernel
-
-/-- `=TRUE>5` → FALSE (TRUE compared as the number 1); Excel: booleans rank above numbers → TRUE -/
-theorem finding_bool_gt_number :
-    Impl.evalTokens noEnv (render 1 (.bin .gt (.logical sTRUE) (.num [53]))) = .ok (.num 0 true) ∧
+/-- regression (fixed in the fix window): `="a"<"B"` is TRUE and `=TRUE>5` is TRUE on both sides -/
+theorem fixed_ordering_typed :
+    Impl.evalTokens noEnv (render 1 (.bin .lt (.text [97]) (.text [66]))) = .ok (.num 1 true) ∧
+    Spec.eval noEnvS (.bin .lt (.text [97]) (.text [66])) = .bool true ∧
+    Impl.evalTokens noEnv (render 1 (.bin .gt (.logical sTRUE) (.num [53]))) = .ok (.num 1 true) ∧
     Spec.eval noEnvS (.bin .gt (.logical sTRUE) (.num [53])) = .bool true := by decide +kernel
+
+/-- what is left of `cmp:bool-as-number`: a blank operand is turned into the number 0 before the
+comparison, so `=A5=FALSE` with blank A5 is FALSE (Excel: a blank compares as FALSE → TRUE) -/
+theorem finding_blank_false :
+    Impl.evalTokens (N := Int) (fun _ => some .empty) (render 1 (.bin .eq (.ref [65]) (.logical sFALSE))) =
+      .ok (.num 0 true) ∧
+    Spec.eval (N := Int) (fun _ => some .blank) (.bin .eq (.ref [65]) (.logical sFALSE)) = .bool true := by
+  decide +kernel
 
 /-- `=-"a"` → 0 (the failed `ToNumber` is ignored); Excel: #VALUE! -/
 theorem finding_neg_text :
